@@ -459,6 +459,20 @@ class Evaluator(object):
             return self.coerce(a, TVal()).e == self.coerce(b, TVal()).e
         if isinstance(a.t, TKey) or isinstance(b.t, TKey):
             return self.coerce_key(a, TKey()).e == self.coerce_key(b, TKey()).e
+        # an opaque object may be anything: compared with a value of a concrete type through the (uninterpreted) cast of that value
+        if isinstance(a.t, TObj) and not isinstance(b.t, (TOpt, TNone)):
+            return a.e == self.coerce(b, TObj()).e
+        if isinstance(b.t, TObj) and not isinstance(a.t, (TOpt, TNone)):
+            return self.coerce(a, TObj()).e == b.e
+        if isinstance(a.t, TOpt) and isinstance(a.t.inner, TObj) and not isinstance(b.t, (TOpt, TNone)):
+            return z3.And(z3.Not(a.t.is_none(cx, a.e)), a.t.get(cx, a.e) == self.coerce(b, TObj()).e)
+        if isinstance(b.t, TOpt) and isinstance(b.t.inner, TObj) and not isinstance(a.t, (TOpt, TNone)):
+            return z3.And(z3.Not(b.t.is_none(cx, b.e)), b.t.get(cx, b.e) == self.coerce(a, TObj()).e)
+        # bool is a subclass of int in Python: 1 == True, 0 == False
+        if isinstance(a.t, TInt) and isinstance(b.t, TBool):
+            return a.e == z3.If(b.e, 1, 0)
+        if isinstance(a.t, TBool) and isinstance(b.t, TInt):
+            return z3.If(a.e, 1, 0) == b.e
         # values of different static sorts are never equal (e.g. None-able port == 80 handled above)
         return z3.BoolVal(False)
 
